@@ -930,8 +930,16 @@ fn builder_section(cx: &mut Ctx) {
     for i in 0..n {
         let axes = cx.rng.range(1, 3) as usize;
         let direct = i % 4 == 3;
-        let small = i % 5 != 4;
-        let npool = cx.rng.range(1, if small { 5 } else { 12 }) as usize;
+        // wide stores: many regions (33..200) in a few rows, each column with its own width class, so that one subtable
+        // has long runs of equal-width columns next to wider / narrower ones (column order vs region_indexes)
+        let wide = i % 13 == 12;
+        let small = wide || i % 5 != 4;
+        let npool = if wide { *cx.rng.pick(&[33usize, 40, 48, 64, 64, 100, 200]) + cx.rng.below(5) as usize } else { cx.rng.range(1, if small { 5 } else { 12 }) as usize };
+        let axes = if wide { 3 } else { axes };
+        let col_class: Vec<u64> = (0..npool).map(|_| *cx.rng.pick(&[1u64, 4, 4, 2, 5, 5, 3, 6])).collect();
+        if wide {
+            cx.st.count(if direct { "ivs.store.wide.direct" } else { "ivs.store.wide.dedup" });
+        }
         let mut pool: Vec<Reg> = vec![];
         while pool.len() < npool {
             let r = gen_region(cx, axes, true);
@@ -939,7 +947,7 @@ fn builder_section(cx: &mut Ctx) {
                 pool.push(r);
             }
         }
-        let nsets = if small { cx.rng.range(0, 10) as usize } else { cx.rng.range(20, if cx.thorough { 3000 } else { 600 }) as usize };
+        let nsets = if wide { cx.rng.range(2, 7) as usize } else if small { cx.rng.range(0, 10) as usize } else { cx.rng.range(20, if cx.thorough { 3000 } else { 600 }) as usize };
         // a profile decides which magnitude classes dominate (so that shapes repeat and merges happen)
         let profile = cx.rng.below(5);
         let mut inputs: Vec<Vec<(usize, i32)>> = vec![];
@@ -956,14 +964,14 @@ fn builder_section(cx: &mut Ctx) {
             }
             let mut set = vec![];
             for r in 0..npool {
-                if cx.rng.chance(2, 3) {
-                    let class = match profile {
+                if cx.rng.chance(if wide { 5 } else { 2 }, if wide { 6 } else { 3 }) {
+                    let class = if wide { col_class[r] } else { match profile {
                         0 => cx.rng.below(7),
                         1 => *cx.rng.pick(&[0, 1, 4, 4, 4]),
                         2 => *cx.rng.pick(&[1, 2, 5, 5, 4]),
                         3 => *cx.rng.pick(&[3, 6, 5, 4, 0]),
                         _ => *cx.rng.pick(&[0, 0, 0, 1, 2, 3]),
-                    };
+                    } };
                     set.push((r, gen_delta(cx, class)));
                 }
             }
@@ -1010,7 +1018,7 @@ fn builder_section(cx: &mut Ctx) {
             if coords.is_empty() {
                 continue;
             }
-            let got = if small {
+            let got = if small && !wide {
                 push_delta_case(cx, &ds, &built.bytes, outer, inner, &coords)
             } else {
                 cx.st.evaluations += 1;
@@ -1025,7 +1033,7 @@ fn builder_section(cx: &mut Ctx) {
             }
         }
         // model case: the builder itself (small stores only)
-        if small {
+        if small && !(wide && npool > 110) {
             let mut partition: Vec<Vec<(u16, u32)>> = vec![vec![]; ds.data.len()];
             let mut ok = true;
             for (id, (o, inn)) in &built.remap {
